@@ -63,6 +63,11 @@ func scenarios(tier core.Tier) []scenario {
 			}
 		}
 	}
+	// three relationship shards: a cursor that lags the committed fragment list by one shard only shows when a resume
+	// starts after the second relationship fragment
+	g3 := mainGraph("g1", 0)
+	g3.Edges = append(g3.Edges, &fakedb.Edge{ID: 41, Start: 1 << 33, End: 1, Kind: "R"})
+	out = append(out, scenario{Spec: fakedb.Spec{Graphs: []*fakedb.Graph{g3}}, Cfg: rtk.Config{Codec: "none", Shard: 1, DumpBatch: 2}})
 	if tier == core.Thorough {
 		// shard and batch boundaries that do not align: 5 nodes / 4 relationships
 		g5 := mainGraph("g1", 0)
@@ -70,7 +75,8 @@ func scenarios(tier core.Tier) []scenario {
 		g5.Edges = append(g5.Edges, &fakedb.Edge{ID: 41, Start: 3, End: 77, Kind: "R"}, &fakedb.Edge{ID: 2, Start: 77, End: 1, Kind: "R", Props: map[string]any{"k": map[string]any{"j": []any{}}}})
 		db3 := fakedb.Spec{Graphs: []*fakedb.Graph{g5}}
 		for _, c := range []string{"none", "zstd"} {
-			out = append(out, scenario{Spec: db3, Cfg: rtk.Config{Codec: c, Shard: 2, DumpBatch: 3}}, scenario{Spec: db3, Cfg: rtk.Config{Codec: c, Shard: 3, DumpBatch: 2}})
+			out = append(out, scenario{Spec: db3, Cfg: rtk.Config{Codec: c, Shard: 2, DumpBatch: 3}}, scenario{Spec: db3, Cfg: rtk.Config{Codec: c, Shard: 3, DumpBatch: 2}},
+				scenario{Spec: db3, Cfg: rtk.Config{Codec: c, Shard: 1, DumpBatch: 3}})
 		}
 		// empty graph first, then two non-empty graphs with overlapping IDs
 		db2 := fakedb.Spec{Graphs: []*fakedb.Graph{{Name: "empty graph"}, mainGraph("g1", 0), mainGraph("g/2", 4)}}
@@ -918,7 +924,7 @@ func main() {
 		os.RemoveAll(root)
 		run.Finish()
 	}
-	run.Set("rule", "for each scenario (database of a 3-node/2-relationship graph + an empty graph [thorough: + empty graph first and two non-empty graphs] x codec x shard size x batch size): every intercepted call index k of Dump (file system calls incl. File.Read/Write/Close, database Count/Fetch) x {crash-before, crash-after, EIO, torn write at 0/n/2/n-1 bytes, short write then EIO, fetch dying or failing after j records}; from every distinct resulting directory state: a traced clean resume, every 'never succeeds if' alteration (10 option changes, 4 source edits per graph, 6 stray files, 4 damages per committed fragment), and every call index x mode of the resume followed by a clean resume (depth 2)")
+	run.Set("rule", "for each scenario (database of a 3-node/2-relationship graph + an empty graph, and a 3-node/3-relationship graph with shard size 1 [thorough: + empty graph first and two non-empty graphs] x codec x shard size x batch size): every intercepted call index k of Dump (file system calls incl. File.Read/Write/Close, database Count/Fetch) x {crash-before, crash-after, EIO, torn write at 0/n/2/n-1 bytes, short write then EIO, fetch dying or failing after j records}; from every distinct resulting directory state: a traced clean resume, every 'never succeeds if' alteration (10 option changes, 4 source edits per graph, 6 stray files, 4 damages per committed fragment), and every call index x mode of the resume followed by a clean resume (depth 2)")
 	run.Assume("a crash is modelled as: the faulted call has the stated (partial) effect, every later call has none (dead shim) - process crash, not power loss; fsync ordering is out of scope")
 	run.Assume("directory states are identified modulo the generated_at timestamp; depth 2 is explored once per distinct state after the first fault (resume is a function of directory, source and options)")
 	run.Assume("'interrupted => no manifest' is read as: a manifest is present only if the dump is complete and identical to the uninterrupted one (a crash between publishing the manifest and removing the checkpoint leaves both)")
